@@ -159,6 +159,65 @@ def equities_task(task):
                            chips='real', timeout_ms=task['timeout_ms'], tag=f'players{m}-types{T}', keep_smt=1 if (m, T) == (2, 2) else 0)
 
 
+def selections_task(task):
+    """E (exhaustive closed evaluation over a stated finite domain): the selection step of the REAL calculate_equities.  An executor
+    stub receives the very `partial(__calculate_equities_1, hole_cards, board_cards, ..., deck_cards, hand_types)` the real function
+    builds; for every pair of ranges over a small card pool and every board, the selections it kept must be exactly the legal deals --
+    no card used twice among the holes or with the board -- and each one's stub deck exactly the cards not in play.  (With all cards
+    given the equities are then independent of sampling only if no illegal selection is ever sampled.)"""
+    import itertools
+    import time
+    import pokerkit.analysis as an
+    from pokerkit.utilities import Deck
+    from pokerkit.hands import StandardHighHand
+    t0 = time.time()
+    deck = list(Deck.STANDARD)[:task['pool']]
+    H = task['H']
+    combos = [tuple(c) for c in itertools.combinations(deck, H)]
+    ranges = [r for k in (1, 2) for r in itertools.combinations(combos, k)]
+    if len(ranges) > task['max_ranges']:
+        step = len(ranges) // task['max_ranges'] + 1
+        ranges = ranges[::step] + ranges[:6]
+    boards = [()] + [tuple(b) for k in (1, 2) for b in itertools.combinations(deck, k)]
+    bad, n = [], 0
+
+    class Capture(Exception):
+        pass
+
+    class Stub:
+        def map(self, fn, indices):
+            raise Capture(fn)
+    for r0 in ranges:
+        for r1 in ranges:
+            for board in boards:
+                n += 1
+                legal = [sel for sel in itertools.product(r0, r1)
+                         if len({c for h in sel for c in h} | set(board)) == 2 * H + len(board)]
+                try:
+                    an.calculate_equities((r0, r1), board, H, len(board), deck, (StandardHighHand,), sample_count=1, executor=Stub())
+                    got = 'returned'
+                except Capture as c:
+                    fn = c.args[0]
+                    kept = [tuple(tuple(h) for h in sel) for sel in fn.args[0]]
+                    stubs = [set(d) for d in fn.args[4]]
+                    got = None
+                    if kept != [tuple(tuple(h) for h in sel) for sel in legal]:
+                        got = f'kept {kept} legal {legal}'
+                    else:
+                        for sel, d in zip(kept, stubs):
+                            if d != set(deck) - {c for h in sel for c in h} - set(board):
+                                got = f'stub deck of {sel} is {sorted(map(repr, d))}'
+                except IndexError:
+                    got = None if not legal else 'IndexError although a legal deal exists'     # no legal deal: choices() of nothing
+                if got and len(bad) < 4:
+                    bad.append(f'ranges {r0} / {r1} board {board}: {got}')
+    meta = {'function': 'pokerkit.analysis.calculate_equities', 'domain': n, 'exhaustive': True,
+            'shape': f'pool of {task["pool"]} cards, {H} hole card(s), ranges of 1-2 combinations, boards of 0-2 cards'}
+    return {'results': [res(f'C18/calculate_equities/only-legal-deals-are-sampled-with-the-right-stub-deck/h{H}pool{task["pool"]}/E', not bad,
+                            f'{n} (ranges, board) inputs; failures: {bad}', 'E', 'CPython-closed', meta, time.time() - t0)],
+            'contract': None}
+
+
 def main(argv=None):
     chk = Check('C18', 'proof', argv)
     source(EXTRA)
@@ -174,6 +233,8 @@ def main(argv=None):
         for T in (1, 2):
             tasks.append({'module': M, 'fn': 'equities_task', 'm': m, 'T': T, 'H': 2, 'Bc': 3, 'name': f'equities/m{m}T{T}',
                           'timeout_ms': 60000 if thorough else 20000, 'weight': 4 * m})
+    for H, pool, mr in (((1, 5, 40), (2, 5, 24)) if not thorough else ((1, 6, 80), (2, 6, 60))):
+        tasks.append({'module': M, 'fn': 'selections_task', 'H': H, 'pool': pool, 'max_ranges': mr, 'name': f'selections/h{H}', 'weight': 20})
     chk.run_tasks(tasks)
     chk.assumptions += [
         'floats are treated as the real numbers they denote: rounding of equities / ICM values is not covered',
